@@ -7,7 +7,7 @@ CONSTANTS
   Multi = TRUE
   LCfg <- Cfg2q
   TokOf <- Tok2
-  Homes <- HomesAll2
+  Homes <- Homes2q
   WaitModes = {}
   LockParts = {}
   ReqStates = {"A", "I"}
